@@ -247,8 +247,9 @@ class RungeKuttaIntegrator(TableauIntegrator, abc.ABC):
     def algebraic_system(self, next_state, rhs, initial_time, initial_state, timestep, constants):
         __aux_states = D.ar_numpy.reshape(next_state, self.stage_values.shape)
         __rhs_states = D.ar_numpy.stack([
-            rhs(initial_time + tbl[0] * timestep,
-                initial_state + timestep * D.ar_numpy.sum(tbl[1:] * __aux_states, axis=-1), **constants)
+            # (a copy: the right-hand side may hand back one preallocated array on every call)
+            D.ar_numpy.copy(rhs(initial_time + tbl[0] * timestep,
+                initial_state + timestep * D.ar_numpy.sum(tbl[1:] * __aux_states, axis=-1), **constants))
             for tbl in self.tableau_intermediate
         ], axis=-1)
         __states = D.ar_numpy.reshape(__aux_states - __rhs_states, (-1,))
